@@ -31,12 +31,12 @@ Lemma unknown_access_cons s a rest :
   | ScArray prefix items =>
       let n := match items with Some ScNever => Z.of_nat (length prefix) | _ => (-1)%Z end in
       match array_index a n with
-      | Some i => unknown_access (sch_item sch_fuel i s) rest
+      | Some i => unknown_access (sch_item (sch_depth s) i s) rest
       | None => (invalid_access, 1%N)
       end
   | ScObject _ _ =>
       match object_key a with
-      | Some k => unknown_access (sch_property sch_fuel k s) rest
+      | Some k => unknown_access (sch_property (sch_depth s) k s) rest
       | None => (invalid_access, 1%N)
       end
   | _ => (invalid_access, 1%N)
@@ -61,13 +61,13 @@ Proof. unfold good. cbn [sch_ok]. destruct items; [eauto|discriminate]. Qed.
 Lemma good_object_addl b props addl : good b (ScObject props addl) = true -> exists ad, addl = Some ad.
 Proof. unfold good. cbn [sch_ok]. destruct addl; [eauto|discriminate]. Qed.
 
-Lemma good_sch_item b i prefix items : good b (ScArray prefix items) = true -> good b (sch_item sch_fuel i (ScArray prefix items)) = true.
+Lemma good_sch_item b i prefix items : good b (ScArray prefix items) = true -> good b (sch_item (sch_depth (ScArray prefix items)) i (ScArray prefix items)) = true.
 Proof.
   intros H. rewrite sch_item_array. destruct (item_sch prefix items i) eqn:E; [|apply good_never].
   apply good_union1. eapply good_item; eauto.
 Qed.
 
-Lemma good_sch_property b k props addl : good b (ScObject props addl) = true -> good b (sch_property sch_fuel k (ScObject props addl)) = true.
+Lemma good_sch_property b k props addl : good b (ScObject props addl) = true -> good b (sch_property (sch_depth (ScObject props addl)) k (ScObject props addl)) = true.
 Proof.
   intros H. rewrite sch_property_object. destruct (prop_sch props addl k) eqn:E; [|apply good_never].
   apply good_union1. eapply good_prop; eauto.
